@@ -1853,8 +1853,8 @@ def quoteStringArgument(argument):
 
     @rtype: C{str}
     """
-    backslash, colon = "\\:"
-    for c in backslash, colon:
+    backslash, colon, equals = "\\:="
+    for c in backslash, colon, equals:
         argument = argument.replace(c, backslash + c)
     return argument
 
